@@ -189,8 +189,8 @@ func (w *World) startProxy(yamlText string, keep *[]*Proxy) {
 		for _, proxy := range config.Proxies {
 			preConfigRoute := createPreConfigRoute(proxy)
 			resolver := createPreConfigHostResolver(config.Hosts, proxy)
-			if keep != nil {
-				err = startProxyKeep(proxy, preConfigRoute, resolver, keep)
+			if keep != nil && startProxyKeepFn != nil {
+				err = startProxyKeepFn(proxy, preConfigRoute, resolver, keep)
 			} else {
 				err = startProxy(proxy, preConfigRoute, resolver)
 			}
@@ -214,33 +214,9 @@ func (w *World) startProxy(yamlText string, keep *[]*Proxy) {
 	}
 }
 
-// startProxyKeep is startProxy's body, keeping the Proxy objects.
-func startProxyKeep(config ProxyConfig, preConfigRoute *PreConfigRoute, resolver *PreConfigHostResolver, keep *[]*Proxy) error {
-	selfLearnRoute := NewSelfLearnRoute()
-	dialogTimeout := config.DialogTimeout
-	if dialogTimeout <= 0 {
-		dialogTimeout = getDefaultDialogTimeout()
-	}
-	var proxies []*Proxy
-	for _, listen := range config.Listens {
-		proxy := NewProxy(config.Name, int64(dialogTimeout), listen.Address, toKeepNextHopRoute(config.KeepNextHopRoute),
-			preConfigRoute, resolver, selfLearnRoute, !listen.NoReceived, listen.MustRecordRoute)
-		item, err := NewProxyItem(listen.Address, listen.UDPPort, listen.TCPPort, listen.BackendLocalAdress, listen.BackendLocalPort,
-			listen.Backends, listen.Dests, !listen.NoReceived, listen.defRoute, proxy, selfLearnRoute, proxy)
-		if err != nil {
-			return err
-		}
-		proxy.AddItem(item)
-		proxies = append(proxies, proxy)
-	}
-	for _, proxy := range proxies {
-		if err := proxy.Start(); err != nil {
-			return err
-		}
-	}
-	*keep = append(*keep, proxies...)
-	return nil
-}
+// startProxyKeepFn (harness/inpkg_c15.go, optional: left out by build.sh when it does not compile against the tree) is
+// startProxy's body keeping the Proxy objects. nil: the in-package view is not available, worlds start the normal way.
+var startProxyKeepFn func(config ProxyConfig, preConfigRoute *PreConfigRoute, resolver *PreConfigHostResolver, keep *[]*Proxy) error
 
 func (w *World) dead() bool {
 	return len(w.K.Panics) > 0 || len(w.K.Failures) > 0 || w.K.StepLimit
